@@ -346,6 +346,16 @@ pub assume_specification [<{q} as PartialEq>::eq] (a: &{q}, b: &{q}) -> (r: bool
             raise LostAnchor(f'{path}: fn {fn} has no body')
         bs, be = e['body']
         edits = []
+
+        def LV(t):
+            # `@LV<k>@` in invariant / ghost text stands for the pattern of the k-th for-loop as it is spelled in /repo NOW
+            # (so renaming a loop variable does not break the proof text that has to mention it)
+            def rep(m):
+                kk = int(m.group(1))
+                if kk >= len(e['loops']) or e['loops'][kk]['kind'] != 'for':
+                    raise LostAnchor(f'{fn}: @LV{kk}@: no such for-loop')
+                return re.sub(r'^(mut|ref)\s+', '', src[e['loops'][kk]['pat'][0]:e['loops'][kk]['pat'][1]].decode().strip().lstrip('&').strip())
+            return re.sub(r'@LV(\d+)@', rep, t)
         # attributes and doc comments dropped; visibility -> pub (R4)
         start = e['sig'][0]
         if e['vis'] is not None:
@@ -429,6 +439,7 @@ pub assume_specification [<{q} as PartialEq>::eq] (a: &{q}, b: &{q}) -> (r: bool
             if inv:
                 lsegs.append(Seg(f'            {kind}\n'))
                 for nm, text in inv:
+                    text = LV(text)
                     cid = f'{fid}.loop{k}.{nm}'
                     self.clauses[cid] = {'kind': 'invariant', 'fn': fid, 'text': ' '.join(text.split())}
                     clause_list.append(cid)
@@ -611,6 +622,7 @@ pub assume_specification [<{q} as PartialEq>::eq] (a: &{q}, b: &{q}) -> (r: bool
         # ghost blocks
         gi = 0
         for anchor, text in ghost:
+            text = LV(text)
             gi += 1
             kind = anchor[0]
             if kind == 'body_start':
